@@ -26,7 +26,7 @@ DEFAULTS = dict(initialMmapSize=0, intFmt='', twoDoublesFmt='', intWidth=0, twoD
                 readerExpr='(0 : Int)', writerExpr='(0 : Int)', padByte=0, scanStart=0, lenFieldSkip=0, valueSkip=0, headerPos=0,
                 freshUsed=0, growFactor=0, positionBack=0, growKind='absent', ctorEffects=[], initValueEffects=[],
                 growBody=[], writeValueEffects=[], packIntegerSlice=0, packTwoDoublesSlice=0, readerUsesHeaderBound=False,
-                shortFileGuard=None)
+                shortFileGuard=None, entryPacksDoubles=True, entryReserve=0)
 
 
 class IntExpr:
@@ -149,6 +149,10 @@ def _emit(ok, v, why=''):
     out += 'def readerUsesHeaderBound : Bool := %s\n' % ('true' if v['readerUsesHeaderBound'] else 'false')
     out += '/-- `if len(data) < N: return iter(())` before the header is unpacked in `read_all_values_from_file` (none = no such guard) -/\n'
     out += 'def shortFileGuard : Option Nat := %s\n' % ('none' if v['shortFileGuard'] is None else 'some %d' % v['shortFileGuard'])
+    out += '/-- does `_init_value` pack the two zero doubles into the entry it writes (false: it writes length, key and padding only and\n'
+    out += 'counts `entryReserve` further bytes as used without writing them) -/\n'
+    out += 'def entryPacksDoubles : Bool := %s\n' % ('true' if v['entryPacksDoubles'] else 'false')
+    out += 'def entryReserve : Nat := %d\n' % v['entryReserve']
     out += 'def growKind : GrowKind := .%s\n' % v['growKind']
     for k in ('ctorEffects', 'initValueEffects', 'growBody', 'writeValueEffects'):
         out += 'def %s : List Eff := [%s]\n' % (k, ', '.join('.' + t for t in v[k]))
@@ -232,12 +236,30 @@ def generate(repo):
         is_len = lambda n: isinstance(n, ast.Call) and ast.unparse(n) == 'len(encoded)'
         v['writerExpr'] = IntExpr(is_len).tr(pd.right.right)
         val = find_assign(iv, 'value')
-        if ast.unparse(val) != "struct.pack(f'i{len(padded)}sdd'.encode(), len(encoded), padded, 0.0, 0.0)":
-            raise Fail('entry packing changed: %s' % ast.unparse(val))
+        uv = ast.unparse(val)
+        size_name = 'len(value)'          # the expression that counts the entry's bytes
+        if uv == "struct.pack(f'i{len(padded)}sdd'.encode(), len(encoded), padded, 0.0, 0.0)":
+            v['entryPacksDoubles'], v['entryReserve'] = True, 0
+        elif uv == "struct.pack(f'i{len(padded)}s'.encode(), len(encoded), padded)":
+            # variant: only length + key + padding are written, the value slot is counted but left as it is
+            sz = find_assign(iv, 'size')
+            if not (isinstance(sz, ast.BinOp) and isinstance(sz.op, ast.Add) and ast.unparse(sz.left) == 'len(value)'):
+                raise Fail('entry without doubles: `size = len(value) + N` expected')
+            v['entryPacksDoubles'], v['entryReserve'] = False, int_const(sz.right)
+            size_name = 'size'
+        else:
+            raise Fail('entry packing changed: %s' % uv)
+        bumps = [n for n in iv.body if isinstance(n, ast.AugAssign) and ast.unparse(n.target) == 'self._used']
+        if len(bumps) != 1 or not isinstance(bumps[0].op, ast.Add) or ast.unparse(bumps[0].value) != size_name:
+            raise Fail('`self._used += %s` expected' % size_name)
+        stores = [n for n in iv.body if isinstance(n, ast.Assign) and isinstance(n.targets[0], ast.Subscript)
+                  and ast.unparse(n.targets[0].value) == 'self._m']
+        if len(stores) != 1 or ast.unparse(stores[0]) != 'self._m[self._used:self._used + len(value)] = value':
+            raise Fail('entry slice assignment changed')
         effs, kind, body_effs = [], 'absent', []
         for st in iv.body:
             if isinstance(st, (ast.While, ast.If)) and any(t == 'truncateGrow' for s in st.body for t in stmt_effects(s, 'init')):
-                if ast.unparse(st.test) != 'self._used + len(value) > self._capacity':
+                if ast.unparse(st.test) != 'self._used + %s > self._capacity' % size_name:
                     raise Fail('growth test changed: %s' % ast.unparse(st.test))
                 kind = 'whileLoop' if isinstance(st, ast.While) else 'ifOnce'
                 for s in st.body:
